@@ -273,6 +273,20 @@ def run(chk):
                     chk.violation("C09.limit", loop, K.short(acc[0]), "size test against client_max_size inside the loop", f"{q}: data is accumulated in a loop without testing the limit inside it: the whole body is buffered before the limit applies")
     chk.expect_count("C09.limit", nl, 6, "accumulating loops")
 
+    # ---- C09.encase: the decoder is selected by the very token that passed the membership test --------------------------------------
+    ph = repo.func(HP, "HttpParser.parse_headers")
+    tests_ = [i for i in ast.walk(ph.node) if isinstance(i, ast.If) and any(isinstance(c, ast.Compare) and isinstance(c.ops[0], ast.In) and isinstance(c.comparators[0], ast.Set) and any(isinstance(e, ast.Constant) and e.value == "gzip" for e in c.comparators[0].elts) for c in ast.walk(i.test))]
+    if not tests_:
+        chk.analysis_error("C09.encase: the Content-Encoding membership test was not found in HttpParser.parse_headers")
+    for i in tests_:
+        cmp_ = next(c for c in ast.walk(i.test) if isinstance(c, ast.Compare) and isinstance(c.ops[0], ast.In) and isinstance(c.comparators[0], ast.Set))
+        tested = norm.raw(cmp_.left)
+        sets = [st for st in i.body if isinstance(st, ast.Assign) and norm.raw(st.targets[0]) == "encoding"]
+        if sets and all(norm.raw(st.value) == tested for st in sets):
+            chk.ok("C09.encase", sets[0], f"the content-coding handed to the decoder is `{tested}`, the normalised token the membership test accepted")
+        else:
+            chk.violation("C09.encase", sets[0] if sets else i, K.short(sets[0]) if sets else "encoding = ...", f"encoding = {tested}",
+                          f"the membership test accepts `{tested}` but the decoder is selected by another spelling: DeflateBuffer / encoding_to_mode compare with lower-case literals, so `Content-Encoding: GZIP` passes the test and is then decoded with the zlib-wrapper decoder - a valid gzip body fails with a payload error (400/500)")
     # ---- C09.errors ---------------------------------------------------------------------------------------------------
     calls = K.exprs(db, "self.decompressor.decompress_sync(...)")
     ok = False
